@@ -1,0 +1,101 @@
+//go:build verif
+
+// Lemma functions for /verif/govc (C09): composite frames. A frame is assembled from symbolic well-formed layers,
+// encoded, decoded into a fresh Ethernet value and re-encoded; the contracts demand that the decoder picks the
+// payload kinds named by the ethertype (after a VLAN tag) and by the IPv4 protocol number, that every field
+// (including the sub-byte ones) comes back unchanged and that the bytes are reproduced.
+
+package protocol
+
+import "github.com/contiv/libOpenflow/util"
+
+func lemmaFrame(e *Ethernet) (d *Ethernet, err error, b1, b2 []byte) {
+	b1, _ = e.MarshalBinary()
+	d = new(Ethernet)
+	err = d.UnmarshalBinary(b1)
+	if err != nil {
+		return
+	}
+	b2, _ = d.MarshalBinary()
+	return
+}
+
+func lemmaEthIPv4UDP(e *Ethernet, ip *IPv4, u *UDP) (*Ethernet, error, []byte, []byte) {
+	ip.Data = u
+	e.Data = ip
+	return lemmaFrame(e)
+}
+
+func lemmaEthIPv4ICMP(e *Ethernet, ip *IPv4, c *ICMP) (*Ethernet, error, []byte, []byte) {
+	ip.Data = c
+	e.Data = ip
+	return lemmaFrame(e)
+}
+
+func lemmaEthIPv4Other(e *Ethernet, ip *IPv4, raw *util.Buffer) (*Ethernet, error, []byte, []byte) {
+	ip.Data = raw
+	e.Data = ip
+	return lemmaFrame(e)
+}
+
+func lemmaEthARP(e *Ethernet, a *ARP) (*Ethernet, error, []byte, []byte) {
+	e.Data = a
+	return lemmaFrame(e)
+}
+
+func lemmaEthOther(e *Ethernet, raw *util.Buffer) (*Ethernet, error, []byte, []byte) {
+	e.Data = raw
+	return lemmaFrame(e)
+}
+
+// IPv6: one lemma per shape of the extension chain (none, routing, fragment, routing+fragment, and a
+// hop-by-hop header with one option) and per payload kind.
+func lemmaEthIPv6UDP(e *Ethernet, ip *IPv6, u *UDP) (*Ethernet, error, []byte, []byte) {
+	ip.HbhHeader, ip.RoutingHeader, ip.FragmentHeader = nil, nil, nil
+	ip.Data = u
+	e.Data = ip
+	return lemmaFrame(e)
+}
+
+func lemmaEthIPv6ICMP(e *Ethernet, ip *IPv6, c *ICMP) (*Ethernet, error, []byte, []byte) {
+	ip.HbhHeader, ip.RoutingHeader, ip.FragmentHeader = nil, nil, nil
+	ip.Data = c
+	e.Data = ip
+	return lemmaFrame(e)
+}
+
+func lemmaEthIPv6Other(e *Ethernet, ip *IPv6, raw *util.Buffer) (*Ethernet, error, []byte, []byte) {
+	ip.HbhHeader, ip.RoutingHeader, ip.FragmentHeader = nil, nil, nil
+	ip.Data = raw
+	e.Data = ip
+	return lemmaFrame(e)
+}
+
+func lemmaEthIPv6R(e *Ethernet, ip *IPv6, r *RoutingHeader, u *UDP) (*Ethernet, error, []byte, []byte) {
+	ip.HbhHeader, ip.RoutingHeader, ip.FragmentHeader = nil, r, nil
+	ip.Data = u
+	e.Data = ip
+	return lemmaFrame(e)
+}
+
+func lemmaEthIPv6F(e *Ethernet, ip *IPv6, f *FragmentHeader, u *UDP) (*Ethernet, error, []byte, []byte) {
+	ip.HbhHeader, ip.RoutingHeader, ip.FragmentHeader = nil, nil, f
+	ip.Data = u
+	e.Data = ip
+	return lemmaFrame(e)
+}
+
+func lemmaEthIPv6RF(e *Ethernet, ip *IPv6, r *RoutingHeader, f *FragmentHeader, u *UDP) (*Ethernet, error, []byte, []byte) {
+	ip.HbhHeader, ip.RoutingHeader, ip.FragmentHeader = nil, r, f
+	ip.Data = u
+	e.Data = ip
+	return lemmaFrame(e)
+}
+
+func lemmaEthIPv6H(e *Ethernet, ip *IPv6, hel uint8, o *Option, u *UDP) (*Ethernet, error, []byte, []byte) {
+	ip.HbhHeader = &HopByHopHeader{NextHeader: Type_UDP, HEL: hel, Options: []*Option{o}}
+	ip.RoutingHeader, ip.FragmentHeader = nil, nil
+	ip.Data = u
+	e.Data = ip
+	return lemmaFrame(e)
+}
